@@ -67,15 +67,15 @@ def _as_editions(mset):
 @st.composite
 def steps(draw):
     kind = draw(st.sampled_from(('parse-good', 'parse-bad', 'parse-bad', 'gen-json', 'gen-json', 'gen-pysnmp', 'repeat', 'compile',
-                                 'gen-editions')))
+                                 'gen-editions', 'gen-editions')))
     if kind == 'gen-editions':
         # two editions of one module (same module name, same identifiers, other definitions) through the same generator
         prof = setcheck.profile_for(None, backends=('json', 'pysnmp'), dialects=('v2',), modules=(1, 1), decls=(3, 8),
                                     texts='short', skipblocks=False, sequential_names=True,
-                                    kinds=('type', 'typefam', 'scalar', 'scalar', 'table'))
-        backend = draw(st.sampled_from(('json', 'pysnmp')))
+                                    kinds=('type', 'typefam', 'scalar', 'scalar', 'scalar', 'table'))
+        backend = draw(st.sampled_from(('json', 'json', 'pysnmp')))
         out = []
-        for i in range(2):
+        for i in range(draw(st.integers(2, 4))):
             ms = _as_editions(draw(mibgen.module_sets(prof)))
             out.append({'k': 'gen', 'backend': backend, 'mod': ms['modules'][0], 'genTexts': False, 'keepLayout': False})
         return out
@@ -498,7 +498,7 @@ def probes(ctx):
 
 
 def run(ctx):
-    ctx.search('histories', histories, history_prop, ctx.pick(320, 8000))
+    ctx.search('histories', histories, history_prop, ctx.pick(400, 8000))
     hashseed_sweep(ctx)
     probes(ctx)
 
